@@ -42,7 +42,11 @@ PROPS["C05"] = {
     ],
 }
 
-ROOT_ENV = {"GOGC": "off"}  # see DESIGN.md 2.2: bucketteer.NewWriter reserves 8 GiB per call; recycling that memory costs seconds
+ROOT_ENV = {"GOGC": "100"}  # package-main units: normal collector; the 8 GiB-per-writer reservation of bucketteer.NewWriter is shrunk by BUCKET_RESERVE (DESIGN.md 8.1)
+# sig-exists writer: per-bucket capacity hint 16 000 -> 16 (65 536 buckets: 8 GiB -> 8 MiB of address space per writer).
+# Only the capacity hint of make() changes; with it the root-package units can run with the normal collector.
+BUCKET_RESERVE = [{"file": "bucketteer/write.go", "rules": [{"old": "16_000", "new": "16"}]}]
+
 
 PROPS["C01"] = {
     "technique": "property-based testing (rapid): generated well-formed epoch CARs with ground-truth offset table; every object/slot/signature looked up through the real `index all` output and a loaded Epoch",
@@ -52,8 +56,8 @@ PROPS["C01"] = {
              "root CID hash kind = header length, data-frame variants); bulk unit appends 99..10001 uniform blocks. non-trivial = >=2 blocks, >=2 transactions and >=1 section with a 2- or 3-byte length varint; distinct by case hash"),
     "assumptions": ["reference encoder and cargen CAR writer are correct (a wrong generator shows as a false alarm on the unchanged tree, not as a silent pass)"],
     "units": [
-        {"name": "index-all", "pkg": ".", "run": "TestVfC01", "checks": T(120, 2400), "shards": T(6, 16), "timeout": T(900, 3000), "env": ROOT_ENV},
-        {"name": "index-all-bulk", "pkg": ".", "run": "TestVfC01Bulk", "checks": T(2, 48), "shards": T(2, 12), "timeout": T(900, 3000), "env": {"GOGC": "100"}, "shrinktime": "5s", "tiers": ("quick", "thorough")},  # big epochs: with GOGC=off a shrink loop over 10 000-block cases exhausts the RAM
+        {"name": "index-all", "pkg": ".", "run": "TestVfC01", "checks": T(240, 4800), "shards": T(6, 16), "timeout": T(900, 3000), "transforms": BUCKET_RESERVE, "env": ROOT_ENV},
+        {"name": "index-all-bulk", "pkg": ".", "run": "TestVfC01Bulk", "checks": T(2, 48), "shards": T(2, 12), "timeout": T(900, 3000), "transforms": BUCKET_RESERVE, "env": ROOT_ENV, "shrinktime": "5s", "tiers": ("quick", "thorough")},
     ],
 }
 
@@ -67,7 +71,7 @@ PROPS["C18"] = {
     "units": [
         {"name": "exhaustive", "pkg": ".", "run": "TestVfC18Exhaustive", "kind": "plain", "checks": 0, "shards": T(4, 16), "timeout": T(600, 3000), "env": {"VERIF_C18_MAXN": T(4, 6)}},
         {"name": "sampled", "pkg": ".", "run": "TestVfC18Rapid", "checks": T(2000, 100000), "shards": T(4, 16), "timeout": T(600, 3000)},
-        {"name": "epoch-search", "pkg": ".", "run": "TestVfC18Epochs", "replay": "TestVfReplayC18Epochs", "checks": T(600, 40000), "shards": T(4, 16), "timeout": T(600, 3000), "env": ROOT_ENV},
+        {"name": "epoch-search", "pkg": ".", "run": "TestVfC18Epochs", "replay": "TestVfReplayC18Epochs", "checks": T(600, 40000), "shards": T(4, 16), "timeout": T(600, 3000), "transforms": BUCKET_RESERVE, "env": ROOT_ENV},
     ],
 }
 
@@ -156,7 +160,7 @@ PROPS["C07"] = {
     "assumptions": ["the real gsfa writer is correct for < 1000 entries per address (judged by C06)"],
     "units": [
         {"name": "reader-exhaustive", "pkg": "./gsfa", "run": "TestVfC07Exhaustive", "kind": "plain", "checks": 0, "shards": T(8, 16), "timeout": T(900, 3000), "transforms": GSFA_FASTPOLL, "env": {"VERIF_C07_STRIDE": T(3, 1)}},
-        {"name": "handler", "pkg": ".", "run": "TestVfC07Handler", "replay": "TestVfReplayC07Handler", "checks": T(96, 2000), "shards": T(6, 16), "timeout": T(900, 3000), "transforms": GSFA_FASTPOLL, "env": ROOT_ENV},
+        {"name": "handler", "pkg": ".", "run": "TestVfC07Handler", "replay": "TestVfReplayC07Handler", "checks": T(96, 2000), "shards": T(6, 16), "timeout": T(900, 3000), "transforms": GSFA_FASTPOLL + BUCKET_RESERVE, "env": ROOT_ENV},
         {"name": "reader-random", "pkg": "./gsfa", "run": "TestVfC07Random", "checks": T(40, 2000), "shards": T(4, 16), "timeout": T(900, 3000), "transforms": GSFA_FASTPOLL},
     ],
 }
@@ -179,7 +183,7 @@ PROPS["C02"] = {
     "rule": ("rapid draws 1..3 or 3..6 epoch specs (distinct epoch numbers; required class epochs>2*concurrency), concurrency and an encoding rotation; every block and transaction of every loaded epoch is queried. non-trivial = >=2 epochs loaded and (a block with >=2 transactions over >=2 entries or a transaction with multi-frame metadata); distinct by case hash"),
     "assumptions": ["the handler is called in-process through fasthttp.RequestCtx.Init (no network stack)"],
     "units": [
-        {"name": "rpc", "pkg": ".", "run": "TestVfC02", "checks": T(48, 1600), "shards": T(8, 16), "timeout": T(900, 3000), "env": ROOT_ENV},
+        {"name": "rpc", "pkg": ".", "run": "TestVfC02", "checks": T(96, 4800), "shards": T(8, 16), "timeout": T(900, 3000), "transforms": BUCKET_RESERVE, "env": ROOT_ENV},
     ],
 }
 
@@ -190,7 +194,7 @@ PROPS["C03"] = {
     "rule": ("rapid draws 1..3 epoch specs (+150..600 bulk blocks each), a probe seed and an unloaded epoch; non-trivial = at least one absent key that collides with a stored key in the real index was queried; distinct by case hash; the per-class numbers of colliding keys are in class_counts (n-colliding-*)"),
     "assumptions": ["sha-256/xxhash behave as random functions for the collision search"],
     "units": [
-        {"name": "absent-keys", "pkg": ".", "run": "TestVfC03", "replay": "TestVfReplayC03", "checks": T(24, 800), "shards": T(8, 16), "timeout": T(900, 3000), "transforms": GSFA_FASTPOLL, "env": ROOT_ENV},
+        {"name": "absent-keys", "pkg": ".", "run": "TestVfC03", "replay": "TestVfReplayC03", "checks": T(48, 1600), "shards": T(8, 16), "timeout": T(900, 3000), "transforms": GSFA_FASTPOLL + BUCKET_RESERVE, "env": ROOT_ENV},
     ],
 }
 
@@ -201,7 +205,7 @@ PROPS["C10"] = {
     "rule": ("rapid draws three epoch specs; per case ~140 configurations are derived deterministically (6 roles x {B, A'} singles, 20 cross-role swaps, 60 pairs, all-A'); non-trivial = case in which at least one configuration must be rejected; distinct by case hash; class_counts reports configurations-tried and foreign-car-cid-fetches"),
     "assumptions": ["identity oracle derived from the property statement (kind, epoch, root)"],
     "units": [
-        {"name": "identity", "pkg": ".", "run": "TestVfC10", "checks": T(16, 480), "shards": T(8, 16), "timeout": T(900, 3000), "shrinktime": "10s", "transforms": GSFA_FASTPOLL, "env": ROOT_ENV},
+        {"name": "identity", "pkg": ".", "run": "TestVfC10", "checks": T(32, 960), "shards": T(8, 16), "timeout": T(900, 3000), "shrinktime": "10s", "transforms": GSFA_FASTPOLL + BUCKET_RESERVE, "env": ROOT_ENV},
     ],
 }
 
@@ -212,7 +216,7 @@ PROPS["C13"] = {
     "rule": ("rapid draws an epoch spec and a cut seed; cuts: every offset for files <=4 KiB, else header/table/bucket boundaries +-2 and 60..200 random offsets; keys: every stored key up to 200 per file. non-trivial lookup = the cut lies before the highest byte the complete-file lookup of that key reads"),
     "assumptions": ["reads of a truncated file behave like reads of bytes.Reader / os.File at EOF (short read + io.EOF)"],
     "units": [
-        {"name": "truncation", "pkg": ".", "run": "TestVfC13", "checks": T(8, 320), "shards": T(8, 16), "timeout": T(900, 3000), "shrinktime": "20s", "transforms": GSFA_FASTPOLL, "env": ROOT_ENV},
+        {"name": "truncation", "pkg": ".", "run": "TestVfC13", "checks": T(16, 640), "shards": T(8, 16), "timeout": T(900, 3000), "shrinktime": "20s", "transforms": GSFA_FASTPOLL + BUCKET_RESERVE, "env": ROOT_ENV},
     ],
 }
 
@@ -223,7 +227,7 @@ PROPS["C08"] = {
     "rule": ("rapid draws protocol, server (0/1/3 epochs), shape class and values from pools of real slots/signatures/addresses plus hostile constants; non-trivial = request other than a plain valid call (ill-typed/missing argument, hostile path, gRPC message); distinct by request hash"),
     "assumptions": ["handlers are invoked in-process (fasthttp.RequestCtx.Init, fake grpc.ServerStream); the network stack and the generated gRPC glue are not exercised"],
     "units": [
-        {"name": "requests", "pkg": ".", "run": "TestVfC08", "checks": T(20000, 1000000), "shards": T(8, 16), "timeout": T(900, 3000), "transforms": GSFA_FASTPOLL, "env": ROOT_ENV, "crash_is_violation": True, "shrinktime": "20s"},
+        {"name": "requests", "pkg": ".", "run": "TestVfC08", "checks": T(20000, 1000000), "shards": T(8, 16), "timeout": T(900, 3000), "transforms": GSFA_FASTPOLL + BUCKET_RESERVE, "env": ROOT_ENV, "crash_is_violation": True, "shrinktime": "20s"},
         {"name": "fuzz", "pkg": ".", "run": "FuzzVfC08Body", "kind": "fuzz", "tiers": ("thorough",), "fuzztime": T("30s", "300s"), "workers": 16, "shards": 1, "checks": 0, "timeout": T(600, 1800), "transforms": GSFA_FASTPOLL, "env": {"GOGC": "100"}},
     ],
 }
@@ -235,7 +239,7 @@ PROPS["C19"] = {
     "rule": ("rapid draws 1..3 epoch specs and 4..14 queries; non-trivial = StreamTransactions query whose range contains >=1 skipped slot and >=2 blocks and whose filter both accepts and rejects a transaction of the range; distinct by case hash"),
     "assumptions": ["reference predicate: a transaction mentions an account if it is among its static keys or its loaded addresses"],
     "units": [
-        {"name": "streams", "pkg": ".", "run": "TestVfC19", "checks": T(64, 1600), "shards": T(8, 16), "timeout": T(900, 3000), "transforms": GSFA_FASTPOLL, "env": ROOT_ENV, "shrinktime": "20s"},
+        {"name": "streams", "pkg": ".", "run": "TestVfC19", "checks": T(128, 4800), "shards": T(8, 16), "timeout": T(900, 3000), "transforms": GSFA_FASTPOLL + BUCKET_RESERVE, "env": ROOT_ENV, "shrinktime": "20s"},
     ],
 }
 
@@ -251,8 +255,8 @@ PROPS["C09"] = {
     "rule": ("stress: rapid draws readers x ops, writers x ops, GOMAXPROCS, class A/B; non-trivial = >=2 readers, >=1 writer and an epoch-listing operation that overlapped a running writer (measured); monitor: 1..40 ops per list, non-trivial = >=2 ops; distinct by case hash"),
     "assumptions": ["a 12 s stall with goroutines parked in RWMutex.RLock/Lock is a deadlock (each operation takes milliseconds)"],
     "units": [
-        {"name": "lock-monitor", "pkg": ".", "run": "TestVfC09Monitor", "checks": T(400, 20000), "shards": T(4, 16), "timeout": T(900, 3000), "transforms": C09_MONITOR, "env": ROOT_ENV},
-        {"name": "stress", "pkg": ".", "run": "TestVfC09Stress", "checks": T(60, 3000), "shards": T(4, 8), "timeout": T(900, 3000), "transforms": GSFA_FASTPOLL, "env": ROOT_ENV, "shrinktime": "20s", "crash_is_violation": True},
+        {"name": "lock-monitor", "pkg": ".", "run": "TestVfC09Monitor", "checks": T(400, 20000), "shards": T(4, 16), "timeout": T(900, 3000), "transforms": C09_MONITOR + BUCKET_RESERVE, "env": ROOT_ENV},
+        {"name": "stress", "pkg": ".", "run": "TestVfC09Stress", "checks": T(100, 3000), "shards": T(4, 8), "timeout": T(900, 3000), "transforms": GSFA_FASTPOLL + BUCKET_RESERVE, "env": ROOT_ENV, "shrinktime": "20s", "crash_is_violation": True},
     ],
 }
 
@@ -268,6 +272,11 @@ PROPS["C12"] = {
     ],
 }
 
+
+# build variants are part of what a check assumes: say so in the evidence of every property that uses one
+for _p in PROPS.values():
+    if any(any(t.get("file") == "bucketteer/write.go" for t in (u.get("transforms") or [])) for u in _p["units"]):
+        _p["assumptions"] = list(_p.get("assumptions", [])) + ["package-main units run against a build whose only difference is the capacity hint of the sig-exists writer's 65 536 buckets (make(..., 0, 16_000) -> 16; AST rewrite at check time, /repo untouched): capacity only, no behaviour"]
 
 # properties not (yet) claimed by a check; kept current by hand
 NOT_APPLICABLE = [
